@@ -78,6 +78,21 @@ def constructed(rng):
         for s in set((n, rng.randrange(1, 19))):
             for sg in (1, -1):
                 out.append("toint %s %s" % (rng.choice(("i128", "i128", "u128", "i64", "u64", rng.choice(TYPES))), G.fD(sg * c, s)))
+    # values that agree with an in-range value in the low bits of the target type (v + k * 2^width): a truncating cast
+    for tt in TYPES:
+        lo, hi = INT_TYPES[tt]
+        width = (hi - lo + 1).bit_length() - 1
+        for _ in range(12):
+            v = rng.choice((0, 1, -1 if lo < 0 else 2, lo, hi, rng.randrange(lo, hi + 1)))
+            for k in (1, -1, 2, rng.randrange(1, 1 << 20), -rng.randrange(1, 1 << 20)):
+                t = v + (k << width)
+                s = rng.randrange(0, 19)
+                if abs(t) * P10[s] <= M:
+                    out.append("toint %s %s" % (tt, G.fD(t * P10[s], s)))
+                # ... and in the low 64 bits whatever the target type
+                t2 = v + (k << 64)
+                if abs(t2) * P10[s] <= M:
+                    out.append("toint %s %s" % (tt, G.fD(t2 * P10[s], s)))
     out.append("fromint u128:%d" % M)
     out.append("fromint u128:%d" % (M + 1))
     out.append("fromint u128:%d" % ((1 << 128) - 1))
